@@ -9,6 +9,7 @@ import (
 
 	"github.com/feichai0017/NoKV/kv"
 	"github.com/feichai0017/NoKV/utils"
+	"github.com/feichai0017/NoKV/utils/verifhook"
 	pkgerrors "github.com/pkg/errors"
 )
 
@@ -346,6 +347,7 @@ func (db *DB) commitWorker() {
 		}
 
 		err := db.vlog.write(requests)
+		verifhook.Point("db.commit.vlogWritten")
 
 		if err != nil {
 			db.finishCommitRequests(batch.reqs, err, nil)
@@ -360,9 +362,11 @@ func (db *DB) commitWorker() {
 		}
 
 		failedAt, err := db.applyRequests(batch.requests)
+		verifhook.Point("db.commit.lsmApplied")
 		if err == nil && db.opt.SyncWrites {
 			err = db.wal.Sync()
 		}
+		verifhook.Point("db.commit.beforeAck")
 		if db.writeMetrics != nil {
 			totalDur := max(time.Since(batch.batchStart), 0)
 			applyDur := max(totalDur-batch.valueLogDur, 0)
